@@ -64,7 +64,7 @@ NAN = 0x7fc00000
 def rand_atom(rng):
     k = rng.randrange(10)
     if k == 0: return [4, rng.choice([0, 1, 1, 2, -1, rand_i32(rng)])]
-    if k == 1: return [6, rng.choice([0, 0x80000000, 0x3f800000, NAN, NAN, rand_f32(rng)])]
+    if k == 1: return [6, rng.choice([0, 0x80000000, 0x3f800000, NAN, NAN, rand_f32(rng), 0x7f800000, 0xff800000, 0x7f800000, 0x3f000000, 0x3f000001, 0x322bcc77, 0x32abcc77, 1, 0x7f7fffff])]
     if k == 2: return [3, rng.randrange(2)]
     if k == 3: return name(rng.choice(NAMES))
     if k == 4: return instr(rng.choice(INSTRS))
@@ -89,6 +89,10 @@ def rand_tree(rng, depth, budget):
 
 
 def mutate(rng, t):
+    if t[0] == 6 and rng.random() < 0.6:            # a float one or two steps away: distinct, but closer than any tolerance
+        return [6, (t[1] + rng.choice([1, -1, 2, 0x80000000])) & 0xffffffff]
+    if t[0] == 9 and t[1] and rng.random() < 0.5:
+        return [9, [(t[1][0] + 1) & 0xffffffff] + t[1][1:]]
     if t[0] == 0 and len(t) > 1 and rng.random() < 0.7:
         i = rng.randrange(1, len(t))
         r = rng.random()
